@@ -13,7 +13,8 @@ import (
 // call translates a call instruction and returns the result terms (in the callee's declared result types).
 func (fr *Frame) call(st *State, call ssa.CallInstruction) []Term {
 	vc := fr.vc
-	vc.curReach = st.reach
+	reach0 := st.reach
+	vc.curReach = reach0
 	c := call.Common()
 	if c.IsInvoke() {
 		return fr.invoke(st, call)
@@ -91,10 +92,12 @@ func (fr *Frame) call(st *State, call ssa.CallInstruction) []Term {
 	}
 	if isModuleFunc(fn) && len(fn.Blocks) > 0 && fr.canInline(fn) {
 		res := fr.inline(st, call, fn, args, bindings)
+		vc.curReach = reach0 // nested calls moved it
 		vc.recordCallSyms(rk, fn.Signature, res)
 		return res
 	}
 	res := fr.defaultCall(st, call, key, fn.Signature, fn, c.Args, args)
+	vc.curReach = reach0
 	vc.recordCallSyms(rk, fn.Signature, res)
 	return res
 }
